@@ -16,7 +16,7 @@ def emptyW : W :=
     g := { kind := fun _ => .dataIn, owner := fun _ => 0, valid := fun _ _ => true, conns := fun _ => [] },
     io := fun _ => ⟨[], [], [], []⟩, clab := fun _ => "", val := fun _ => none, recv := fun _ => none,
     admits := fun _ _ => true, linkOk := fun _ _ => true, locked := fun _ => false,
-    imap := fun _ => none, omap := fun _ => none }
+    imap := fun _ => none, omap := fun _ => none, cached := fun _ => false }
 
 def init : St := { w := emptyW, cfg := Cfg.pinned, nodes := [], chans := [] }
 
@@ -52,7 +52,8 @@ def obs (s : St) (e : Err) : List String :=
   let conn := " ".intercalate (s.chans.map fun c => s!"{c}:{showNats (w.g.conns c)}")
   let vals := " ".intercalate ((s.chans.filter fun c => w.g.kind c == .dataIn || w.g.kind c == .dataOut).map
     fun c => s!"{c}={showOpt (w.val c)}>{showOpt (w.recv c)}")
-  ["res " ++ showErr e, "tree " ++ tree, "kids " ++ kids, "conn " ++ conn, "data " ++ vals]
+  let cache := " ".intercalate ((s.nodes.filter fun n => w.cached n).map toString)
+  ["res " ++ showErr e, "tree " ++ tree, "kids " ++ kids, "conn " ++ conn, "data " ++ vals, "cache " ++ cache]
 
 def addChan (io : NodeIO) (k : Kind) (c : Nat) : NodeIO :=
   match k with
@@ -89,10 +90,10 @@ def setMapEntry (m : Option WfIO.KeyMap) (k v : String) : Option WfIO.KeyMap :=
 def step (s : St) (ws : List String) : St × List String :=
   let w := s.w
   match ws with
-  | ["cfg", a, b, c, d, e, f] =>
-    match parseBool a, parseBool b, parseBool c, parseBool d, parseBool e, parseBool f with
-    | some a, some b, some c, some d, some e, some f => ({ s with cfg := ⟨a, b, c, d, e, f, 64⟩ }, [])
-    | _, _, _, _, _, _ => (s, ["bad-op"])
+  | ["cfg", a, b, c, d, e, f, h] =>
+    match parseBool a, parseBool b, parseBool c, parseBool d, parseBool e, parseBool f, parseBool h with
+    | some a, some b, some c, some d, some e, some f, some h => ({ s with cfg := ⟨a, b, c, d, e, f, h, 64⟩ }, [])
+    | _, _, _, _, _, _, _ => (s, ["bad-op"])
   | ["node", n, k, l] =>
     match n.toNat?, parseNodeKind k with
     | some n, some k =>
@@ -153,6 +154,20 @@ def step (s : St) (ws : List String) : St × List String :=
       let f := w.linkOk
       ({ s with w := { w with linkOk := fun x y => if x = a ∧ y = b then false else f x y } }, [])
     | _, _ => (s, ["bad-op"])
+  | ["setlabel", n, l] =>
+    match n.toNat? with
+    | some n =>
+      let t' : Tree.Tree := { w.t with label := updF w.t.label n l.toList }
+      ({ s with w := { w with t := t' } }, [])
+    | none => (s, ["bad-op"])
+  | ["cached", n, b] =>
+    match n.toNat?, parseBool b with
+    | some n, some b => ({ s with w := { w with cached := updF w.cached n b } }, [])
+    | _, _ => (s, ["bad-op"])
+  | ["unlocked", n] =>
+    match n.toNat? with
+    | some n => ({ s with w := { w with locked := updF w.locked n false } }, [])
+    | none => (s, ["bad-op"])
   | ["locked", n] =>
     match n.toNat? with
     | some n => ({ s with w := { w with locked := updF w.locked n true } }, [])
@@ -172,6 +187,13 @@ def step (s : St) (ws : List String) : St × List String :=
       let s' := { s with w := r.1 }
       (s', obs s' r.2)
     | _, _, _ => (s, ["bad-op"])
+  | ["replacelabel", p, l, n] =>
+    match p.toNat?, n.toNat? with
+    | some p, some n =>
+      let r := Edit.step s.cfg w (.replaceLabel p l.toList n)
+      let s' := { s with w := r.1 }
+      (s', obs s' r.2)
+    | _, _ => (s, ["bad-op"])
   | ["copyio", me, other, ch, vh] =>
     match me.toNat?, other.toNat?, parseBool ch, parseBool vh with
     | some me, some other, some ch, some vh =>
